@@ -29,11 +29,11 @@ import numpy
 import torch
 
 SCOPE = {
-    'quick': 'recursive_seqlets: directed bumps at positions 0/1/2 and at the end with additional_flanks 0-5, then ~1500 seeded tracks '
+    'quick': 'recursive_seqlets: directed bumps at positions 0/1/2 and at the end with additional_flanks 0-5, then ~4000 seeded tracks '
              '(1-6 examples, length 40-600, 0-10 planted +/- bumps of width 3-30 incl. at position 0/1 and ending at length / length-1, '
              'noise sd 0.05-0.5, thresholds 0.001-0.2, min_seqlet_len 3-12, max_seqlet_len min+1..30, additional_flanks 0-5, '
-             'float32/float64, torch/numpy input); tfmodisco_seqlets: ~250 seeded float32 tracks, window 3-21, flank 0-10, target_fdr 0.05-0.3',
-    'thorough': 'same generators: ~40000 recursive cases and ~5000 tfmodisco cases (time-capped)',
+             'float32/float64, torch/numpy input); tfmodisco_seqlets: ~700 seeded float32 tracks, window 3-21, flank 0-10, target_fdr 0.05-0.3',
+    'thorough': 'same generators: up to 60000 recursive cases and up to 12000 tfmodisco cases (time-capped)',
 }
 
 Q = 64.0
@@ -217,7 +217,7 @@ def _directed():
 def run(rep):
     thorough = rep.tier == 'thorough'
     rng = rep.rng
-    n_rec, n_tfm = (40000, 5000) if thorough else (1500, 250)
+    n_rec, n_tfm = (60000, 12000) if thorough else (4000, 700)
     total, zde = 0, 0
     for case in _directed():
         viol, k = _eval_recursive(case)
